@@ -648,6 +648,7 @@ func (ls *LanceroSource) launchLanceroReader() {
 	go func() {
 		ticker := time.NewTicker(ls.readPeriod)
 		lastSuccesfulRead := time.Now()
+		discardedUnreported := false // data were thrown away since the last block was sent
 		for {
 			select {
 			case <-ls.abortSelf:
@@ -681,6 +682,7 @@ func (ls *LanceroSource) launchLanceroReader() {
 					fmt.Printf("ncols have %v, want %v. nrows have %v, want %v, timeSinceLastSuccesfulRead %v\n",
 						ncols, dev.ncols, nrows, dev.nrows, timeSinceLastSuccesfulRead)
 					dev.card.ReleaseBytes(len(b))
+					discardedUnreported = true // the next block has to report this loss
 					continue
 				}
 				firstWord := q
@@ -707,6 +709,10 @@ func (ls *LanceroSource) launchLanceroReader() {
 					timeFix = timeFix.Add(-ls.samplePeriod * time.Duration(fractionOfSampledPeriod))
 					log.Printf("DATA DROP, first word = %v\n", firstWord)
 
+				}
+				if discardedUnreported {
+					dataDropDetected = true
+					discardedUnreported = false
 				}
 				buffers = append(buffers, bytesToRawType(b))
 				bframes := len(b) / dev.frameSize
